@@ -36,9 +36,13 @@ func (s *Sim) opWeights() weights {
 		w["advance"] = 12
 		w["node_remove"] = 2
 	case "preempt":
-		w["advance"] = 14
-		w["tick"] = 6
-		w["release"] = 4
+		w["advance"] = 16
+		w["tick"] = 8
+		w["release"] = 3
+		w["complete"] = 1
+		w["ask"] = 18
+		w["node_remove"] = 0
+		w["resize"] = 0
 	case "maxapps":
 		w["app_add"] = 10
 		w["complete"] = 6
@@ -222,6 +226,9 @@ func (s *Sim) genAsks(appID string) Op {
 		}
 		a.PreemptSelf = r.Bool(0.8)
 		a.PreemptOther = r.Bool(0.6)
+		if s.pf.Preemption {
+			a.PreemptOther = r.Bool(0.9)
+		}
 		if r.Bool(0.05) {
 			a.Originator = true
 		}
@@ -288,6 +295,9 @@ func (s *Sim) placeholderAsks(a *AppArgs) Op {
 func (s *Sim) genAdvance() Op {
 	r := s.rng
 	var ms int64
+	if s.pf.Preemption && r.Bool(0.6) {
+		return Op{Kind: "advance", Ms: int64(r.Range(1000, 40000)), Quantum: 1000}
+	}
 	switch x := r.Intn(100); {
 	case x < 45:
 		ms = int64(r.Range(0, 3000))
